@@ -4,6 +4,7 @@ import (
 	"encoding/json"
 	"fmt"
 	"runtime"
+	"strings"
 	"sync"
 	"sync/atomic"
 
@@ -54,6 +55,9 @@ var c08fixed = []struct {
 	// execution order of the imports differs from their source order: the first import in the source sits in a function
 	// called later / in a branch never taken, the import that runs first comes later in the source and writes
 	{"global (ID, TICK)\nTICK()\nlate := func() {\n  return import(\"plugins\")\n}\nvar never\nif ID < 0 {\n  never = import(\"strings\")\n}\np := import(\"plugins\")\nkey := \"k\" + ID\np.registry[key] = true\np.nested.inner[key] = ID\np.nested.arr[0][key] = ID\np.state.n += ID + 1\np.log[0] += 10\np.buf[0] = 7\np.list = append(p.list, ID)\ns := import(\"strings\")\ns.Marker = ID\ns.nested = {id: ID}\nTICK()\nq := late()\nreturn [len(q.registry), len(q.nested.inner), len(q.nested.arr[0]), q.state.n == ID + 1, q.log[0], q.buf[0], len(q.list), q.registry[key], import(\"strings\").Marker == ID, import(\"strings\").nested.id == ID, never]", nil, []string{"plugins", "strings"}},
+	// variadic main parameters written to in place (the packed array must be the run's own)
+	{"param (first, ...rest)\nglobal (ID, TICK)\nTICK()\nrest[0] += first + ID\nrest[1] += \"!\"\nrest = append(rest, ID)\nTICK()\nreturn [first, rest, len(rest)]", nil, nil},
+	{"param (...all)\nglobal (ID, TICK)\nTICK()\nfor i := 0; i < len(all) - 1; i++ {\n  all[i] = [ID, i]\n  TICK()\n}\nreturn all", nil, nil},
 	// callbacks on pooled child VMs that fail (caught by the script) followed by more callbacks, nested ones included:
 	// a child VM handed back to the process-wide pool must never be handed out to two VMs at once
 	{"global (ID, TICK, CALL)\nTICK()\ns := import(\"strings\")\nout := []\nfor i := 0; i < 6; i++ {\n  try {\n    s.Map(func(c) {\n      if i % 2 == 0 {\n        throw \"cb\"\n      }\n      return c + 1\n    }, \"ab\")\n  } catch e {\n    out = append(out, \"caught\")\n  }\n  out = append(out, s.Map(func(c) { TICK(); return c + ID % 3 }, \"abc\"))\n  try {\n    CALL(func() { throw error(\"x\" + ID) })\n  } catch e {\n    out = append(out, e.Message)\n  }\n  out = append(out, CALL(func(a) { TICK(); return CALL(func(b) { TICK(); return b + ID }, a) }, i))\n  out = append(out, s.TrimFunc(\"xxhixx\", func(c) { TICK(); return c == 'x' }))\n}\nreturn out", nil, []string{"strings"}},
@@ -288,7 +292,20 @@ func (m c08) Run(c *core.Ctx) {
 		if !c.Begin(func() string { return f.src }) {
 			continue
 		}
-		m.program(c, f.src, f.mods, f.bm, nil, true)
+		var args []ugo.Object
+		var snap string
+		if strings.HasPrefix(f.src, "param ") {
+			// all VMs are given the SAME argument slice (vm.Run(g, shared...)): it belongs to the host and is only read
+			args = []ugo.Object{ugo.Int(10), ugo.Int(1), ugo.String("x"), ugo.Array{ugo.Int(5)}}
+			snap = canon.Value(ugo.Array(args))
+		}
+		m.program(c, f.src, f.mods, f.bm, args, true)
+		if args != nil {
+			c.Count("shared_argument_slice_programs")
+			if now := canon.Value(ugo.Array(args)); now != snap {
+				c.Violation("C08|host-args-modified", "the argument slice shared by the concurrent runs was modified by the scripts: "+trunc(snap, 100)+" became "+trunc(now, 100), c08wit{Src: f.src, Why: "shared argument slice modified", Solo: snap, Conc: now})
+			}
+		}
 		c.Count("programs_fixed")
 	}
 	n := c.Pick(3, 150)
